@@ -116,9 +116,10 @@ def handle (line : String) : String :=
     | some s, some tb =>
       let w : LeafPt → Int := lookupW tb
       let f : Pt → Int := fun P => (P.map (lookupV tb)).foldl (· * ·) 1
-      let ne := nelems s
-      let idx := ";".intercalate ((index s).map showNats)
-      let head := s!"{b01 (validB s)}|{b01 (canIntegrate s)}|{ne}|{npoints s}|{idx}"
+      let S := sem s          -- computed once: `getindex s i` would rebuild it for every element
+      let ne := S.nelems
+      let idx := ";".intercalate ((List.range ne).map fun i => showNats (S.getindex i))
+      let head := s!"{b01 (validB s)}|{b01 (canIntegrate s)}|{ne}|{S.npoints}|{idx}"
       if mode == "index" then head
       else
         let ps := ";".intercalate ((List.range ne).map fun i => ",".intercalate ((pts s i).map showPt))
